@@ -279,6 +279,11 @@ pub fn capacity_histories() -> impl Strategy<Value = Input> {
                 }
                 lines.push(Line::new(build::line(n, i as u32 + 1, id, b"A", &p, 0), decode && i as u32 + 1 == n));
             }
+            // the last fragment once more, this time short: if the long one was refused for capacity the
+            // group is still open and must now complete with everything accepted before
+            if salt & 1 == 1 {
+                lines.push(Line::new(build::line(n, n, id, b"A", b"7", 0), decode));
+            }
             lines.extend(after.iter().map(render_ev));
             // and the group once more, to see that the parser is still in step afterwards
             lines.push(Line::new(build::line(2, 1, id, b"A", b"15", 0), false));
@@ -302,6 +307,17 @@ pub fn run(ctx: &mut Ctx) {
     ctx.run_proptest("adversarial-histories", &NONE, n, adversarial_events(30).prop_map(|e| Input::History { lines: e.iter().map(render_ev).collect() }), check);
     ctx.run_proptest("single-sentences", &NONE, n, (wellformed_spec(), any::<bool>()).prop_map(|(s, d)| Input::History { lines: vec![Line::new(s.render(), d)] }), check);
     ctx.run_proptest("capacity-histories", &NONE, n / 2, capacity_histories(), check);
+    // sentences that are not validly numbered (count 0, number 0, number above count) are outside the
+    // sequencing properties, but the three builds must still agree on them, whatever the history
+    let odd = (adversarial_events(12), proptest::collection::vec((prop::sample::select(vec![(0u32, 1u32), (0, 0), (0, 2), (0, 3), (1, 0), (2, 0), (2, 3), (1, 2), (3, 9)]), prop_oneof![Just(None), (0u32..4).prop_map(Some)], crate::gen::sentence::token_payload(), any::<bool>(), any::<u16>()), 1..5)).prop_map(|(evs, odds)| {
+        let mut lines: Vec<Line> = evs.iter().map(render_ev).collect();
+        for ((n, k), id, p, decode, pos) in odds {
+            let at = (pos as usize * (lines.len() + 1)) >> 16;
+            lines.insert(at, Line::new(build::line(n, k, id, b"A", &p, 0), decode));
+        }
+        Input::History { lines }
+    });
+    ctx.run_proptest("not-validly-numbered", &NONE, n, odd, check);
     ctx.run_proptest("encoded-messages", &NONE, n * 2, payload_inputs(SUPPORTED.to_vec(), LenMode::Any, Prop::C14, 6, 0.25), check);
     ctx.run_proptest("encoded-messages-standard", &NONE, n, payload_inputs(SUPPORTED.to_vec(), LenMode::Standard, Prop::C04, 8, 0.25), check);
     ctx.run_proptest("raw-lines", &NONE, n, proptest::collection::vec(any::<u8>(), 0..100).prop_map(|b| Input::History { lines: vec![Line::new(b, true)] }), check);
